@@ -139,6 +139,8 @@ func (g *gen) traceCase() *Case {
 		r := Rule{Pat: "p", B: g.cond(0), Body: []Op{{K: "e", N: 1 + g.n(5)}}}
 		if g.n(4) == 0 {
 			r = Rule{Pat: "a", Body: []Op{{K: "e", N: 1 + g.n(5)}, {K: "e", N: 7}}}
+		} else if g.n(4) == 0 { // the pattern calls a function that executes next / nextfile
+			r.Raise, r.RaiseAt, r.W = []string{"n", "nf"}[g.n(2)], "b", g.cond(0)
 		}
 		cs.Rules = append(cs.Rules, r)
 	}
@@ -268,6 +270,13 @@ func (g *gen) mixedCase() *Case {
 		default:
 			r = Rule{Pat: "r", B: g.cond(1), E: g.cond(1)}
 		}
+		if r.Pat != "a" && g.n(7) == 0 { // a raising pattern expression (single, begin or end)
+			r.Raise, r.W = []string{"n", "nf"}[g.n(2)], g.cond(0)
+			r.RaiseAt = "b"
+			if r.Pat == "r" && g.n(2) == 0 {
+				r.RaiseAt = "e"
+			}
+		}
 		if r.Pat != "a" && g.n(8) == 0 {
 			r.NoBody = true
 		} else {
@@ -325,6 +334,11 @@ func corpusCases(pool map[string][]string) []*Case {
 		mk([]string{"k1", "k2"}, []string{"s"}, []Op{{K: "sc", N: 1}}, []Rule{tick}, []Op{e(900)}),
 		// only BEGIN: the input is not read
 		mk([]string{"k1"}, nil, []Op{{K: "g"}, e(800)}, nil, nil),
+		// Gc11-1 (repaired): next / nextfile executed by a function called from a pattern — single, begin of a range, end of a range
+		mk([]string{"k2"}, nil, nil, []Rule{{Pat: "p", B: &Cond{K: "t"}, Raise: "n", RaiseAt: "b", W: has('b'), Body: []Op{e(1)}}, {Pat: "a", Body: []Op{e(2)}}}, []Op{e(900)}),
+		mk([]string{"k2", "k1"}, nil, nil, []Rule{tick, {Pat: "p", B: &Cond{K: "t"}, Raise: "nf", RaiseAt: "b", W: &Cond{K: "fnr", N: 2}, Body: []Op{e(1)}}}, []Op{e(900)}),
+		mk([]string{"k2"}, nil, nil, []Rule{tick, {Pat: "r", B: has('b'), E: &Cond{K: "f"}, Raise: "n", RaiseAt: "e", W: has('y'), Body: []Op{e(1)}}, {Pat: "a", Body: []Op{e(2)}}}, []Op{e(900)}),
+		mk([]string{"k2", "k2"}, nil, nil, []Rule{tick, {Pat: "r", B: has('y'), E: has('a'), Raise: "nf", RaiseAt: "b", W: has('b'), Body: []Op{e(1)}}, {Pat: "a", Body: []Op{e(2)}}}, []Op{e(900)}),
 	}
 	cases = append(cases, rawCases(pool)...)
 	return cases
